@@ -49,6 +49,46 @@ fn parse_args(v: &[String]) -> Args {
     a
 }
 
+/// Generic per-case driver: every case has its own PRNG stream (so `--only` reproduces it),
+/// `--keep` restricts the generated operation list, and a panic of the implementation while a
+/// case runs is caught and reported (`PANIC idx step message`) together with the trace so far.
+pub fn drive<F>(args: &Args, salt: u64, mut f: F)
+where
+    F: FnMut(&mut prng::Prng, Option<&Vec<usize>>, u64, &mut String, &mut Vec<String>),
+{
+    std::panic::set_hook(Box::new(|_| {}));
+    let mut total_ops = 0usize;
+    let mut panics = 0usize;
+    for idx in 0..args.count {
+        if let Some(only) = args.only {
+            if only != idx {
+                continue;
+            }
+        }
+        let mut rng = prng::Prng::new(args.seed ^ ((idx as u64) << 20) ^ salt);
+        let mut header = String::new();
+        let mut items: Vec<String> = Vec::new();
+        let case_seed = args.seed.wrapping_add(idx as u64);
+        let res = std::panic::catch_unwind(std::panic::AssertUnwindSafe(|| {
+            f(&mut rng, args.keep.as_ref(), case_seed, &mut header, &mut items);
+        }));
+        total_ops += items.len();
+        println!("CASE {} {} ({}, {})", idx, items.len(), header, coqfmt::list(&items));
+        if let Err(e) = res {
+            panics += 1;
+            let msg = if let Some(s) = e.downcast_ref::<&str>() {
+                s.to_string()
+            } else if let Some(s) = e.downcast_ref::<String>() {
+                s.clone()
+            } else {
+                "panic".to_string()
+            };
+            println!("PANIC {} {} {}", idx, items.len(), msg.replace('\n', " "));
+        }
+    }
+    println!("STAT {{\"ops\": {}, \"panics\": {}}}", total_ops, panics);
+}
+
 fn main() {
     let argv: Vec<String> = std::env::args().collect();
     if argv.len() < 2 {
